@@ -241,6 +241,40 @@ func boundaryInt(r *kernel.Rand, max int64) int64 {
 	return r.Int63n(max + 1)
 }
 
+// structBytes are octets that mean something to the decoders on the path: NGAP IE ids of the setup
+// request and its transfer (130, 139, 127, 134, 138, 129, 136, 74, 38), NAS IEIs of the establishment
+// accept (0x29 PDU address, 0x59, 0x7B, 0x79, 0x22, 0x25, 0x56), protocol discriminators, and the
+// small integers that look like length or count fields. Network-chosen values built from them are
+// the ones that confuse an extractor which searches for a pattern instead of walking lengths.
+var structBytes = []byte{0x00, 0x00, 0x8B, 0x8B, 0x82, 0x7F, 0x86, 0x8A, 0x81, 0x88, 0x4A, 0x26, 0x29, 0x29, 0x59, 0x7B, 0x79, 0x22, 0x25, 0x56, 0x7E, 0x2E, 0x01, 0x04, 0x05, 0x40, 0x80, 0xFF}
+
+// structInt draws an integer in 0..max whose big-endian octets are structure-like.
+func structInt(r *kernel.Rand, max int64) int64 {
+	n := r.Range(1, 5)
+	var v int64
+	for i := 0; i < n; i++ {
+		v = v<<8 | int64(structBytes[r.Intn(len(structBytes))])
+	}
+	if r.Chance(1, 3) { // IE id 139 (UL NG-U UP TNL information) in every position it can take
+		v = []int64{139, 139 << 8, 139 << 16, 0x010000 | 139, 0x01000000 | 139<<8, 139<<24 | 139}[r.Intn(6)]
+	}
+	if v > max {
+		v %= max + 1
+	}
+	return v
+}
+
+func structIP(r *kernel.Rand) string {
+	b := make([]byte, 4)
+	for i := range b {
+		b[i] = structBytes[r.Intn(len(structBytes))]
+	}
+	if b[0] == 0 || b[0] >= 224 || b[0] == 127 {
+		b[0] = 0x29
+	}
+	return fmt.Sprintf("%d.%d.%d.%d", b[0], b[1], b[2], b[3])
+}
+
 // genUE draws the network's choices for one UE; ids are kept unique by the caller.
 func genUE(r *kernel.Rand, o GenOpts, ord int) scn.UEParams {
 	var p scn.UEParams
@@ -283,12 +317,34 @@ func genUE(r *kernel.Rand, o GenOpts, ord int) scn.UEParams {
 	}
 	p.TEID = hex.EncodeToString(te)
 	p.UPFIP = fmt.Sprintf("%d.%d.%d.%d", r.Range(1, 223), r.Intn(256), r.Intn(256), r.Intn(256))
+	// structure-like values (see structBytes): a quarter of the UEs get some
+	rs := r.Sub("struct")
+	if rs.Chance(1, 4) {
+		if rs.Bool() {
+			p.UEIP = structIP(rs)
+		}
+		if rs.Bool() {
+			p.UPFIP = structIP(rs)
+		}
+		if rs.Bool() {
+			te = []byte{structBytes[rs.Intn(len(structBytes))], structBytes[rs.Intn(len(structBytes))], structBytes[rs.Intn(len(structBytes))], structBytes[rs.Intn(len(structBytes))]}
+			p.TEID = hex.EncodeToString(te)
+		}
+		p.Fill = rs.Range(1, 3)
+		p.CauseVal = int(rs.Pick(0x29, 0x29, 0x59, 0x7B, 0x1A, 0x24))
+	}
 	p.QoSRuleLen = r.Pick(0, 1, 6, 9, 32, 127, 128, 255, 256, r.Range(0, 1000))
 	if o.OptIEs {
 		p.AccLens = []int{r.Range(0, 120), r.Range(0, 120), r.Range(0, 120), r.Range(0, 120), r.Range(0, 60), r.Range(0, 40)}
 	}
 	p.AMBRDL = boundaryInt(r, 4000000000000)
 	p.AMBRUL = boundaryInt(r, 4000000000000)
+	if rs.Chance(1, 3) {
+		p.AMBRDL = structInt(rs, 4000000000000)
+	}
+	if rs.Chance(1, 3) {
+		p.AMBRUL = structInt(rs, 4000000000000)
+	}
 	p.FiveQI = r.Pick(1, 5, 9, 255, r.Intn(256))
 	p.SvcPDU = r.Bool()
 	return p
